@@ -101,6 +101,11 @@ func unwrap(v interface{}) interface{} {
 	if i.Kind() == reflect.Invalid {
 		return nil
 	}
+	if i.Kind() == reflect.Slice && i.IsNil() {
+		// A nil []byte is the empty byte string of a (non-null) bytes scalar;
+		// encoding/json would render the nil slice as null.
+		return reflect.MakeSlice(i.Type(), 0, 0).Interface()
+	}
 	return i.Interface()
 }
 
